@@ -125,15 +125,13 @@ func signBLSOn[
 	E algebra.MultiplicativeGroupElement[E], S algebra.PrimeFieldElement[S],
 ](d *blsDesc[PK, PKFE, SG, SGFE, E, S], r, vi int) {
 	for mi, mode := range blsModes {
-		for pi, np := range policyWindow(lim(4, 8), vi*3+mi+r) {
-			for qi, q := range quorumCases(np, lim(2, 10), lim(1, 2), lim(2, 99), pi+r+int(seed)) {
-				msgClass := []string{"short", "kib", "short", "kib", "empty"}[(pi+qi+r+mi)%5]
-				name := fmt.Sprintf("sign:bls:%s-%s:%s:%s", d.name, mode.name, np.Name, q.kind)
-				if !takeCase(name) {
-					continue
-				}
-				blsLine(d, mode.name, mode.alg, np, keyFor(d.g, np, pi+mi+vi+int(seed)+r), q, msgClass)
+		for _, it := range planCheap(vi*3 + mi + r) {
+			msgClass := []string{"short", "kib", "short", "kib", "empty"}[(it.pi+it.qi+r+mi)%5]
+			name := fmt.Sprintf("sign:bls:%s-%s:%s:%s", d.name, mode.name, it.np.Name, it.q.kind)
+			if !takeCase(name) {
+				continue
 			}
+			blsLine(d, mode.name, mode.alg, it.np, keyFor(d.g, it.np, it.srcIdx), it.q, msgClass)
 		}
 	}
 }
